@@ -39,6 +39,24 @@ def pairs(prog):
     return out
 
 
+def _is_closure(g, a, cfield, base):
+    """a is <base>.cfield, or a local whose every definition is <base>.cfield."""
+    a = strip(a)
+    if a["k"] == "MemberExpr":
+        return a["field"] == cfield and canon(a["kids"][0]) == base
+    if a["k"] == "DeclRefExpr" and a.get("dk") == "local":
+        defs = []
+        for n in walk(g.body):
+            if n["k"] == "DeclStmt":
+                for d in n["decls"]:
+                    if d["name"] == a["name"] and d.get("init") is not None:
+                        defs.append(d["init"])
+            elif MR.is_store(n) and strip(n["kids"][0]).get("k") == "DeclRefExpr" and strip(n["kids"][0]).get("name") == a["name"]:
+                defs.append(n["kids"][1] if len(n["kids"]) > 1 else None)
+        return bool(defs) and all(d is not None and strip(d)["k"] == "MemberExpr" and strip(d)["field"] == cfield and canon(strip(d)["kids"][0]) == base for d in defs)
+    return False
+
+
 def check(ctx, res, rule, records):
     """records: the option records whose callbacks this property is about."""
     prog = ctx.prog
@@ -60,7 +78,7 @@ def check(ctx, res, rule, records):
             cfield, setter = mine[(ce.get("rec"), ce["field"])]
             base = canon(ce["kids"][0])
             ncall += 1
-            good = any(strip(a)["k"] == "MemberExpr" and strip(a)["field"] == cfield and canon(strip(a)["kids"][0]) == base for a in call_args(n))
+            good = any(_is_closure(g, a, cfield, base) for a in call_args(n))
             res.check(good, rule, site(g, "call:%s" % ce["field"]),
                       "%s is called with the closure registered with it (%s of the same object)" % (ce["field"], cfield),
                       "user callback %s is called without %s.%s, the closure %s registered with it: the callback receives somebody else's state (%s)"
